@@ -756,6 +756,7 @@ def child_launch(arg: dict) -> dict:
 
     class LAgent(SAgent):
         n = [1000]
+        last_seen = [float("-inf")]        # the latest system-clock value a component read during the run
 
         def __init__(self, rec, lid, state, tolerant, children):
             super().__init__(rec, lid, state, tolerant, children)
@@ -782,6 +783,7 @@ def child_launch(arg: dict) -> dict:
 
         def step(self, observation):
             self.state += 1
+            LAgent.last_seen[0] = max(LAgent.last_seen[0], ptime.time())
             if collect:
                 for name, c in self.colls.items():
                     LAgent.n[0] += 1
@@ -854,6 +856,7 @@ def child_launch(arg: dict) -> dict:
         "markers": {n: pc.ext_of_float(t._previous_training_time) for n, t in trainers.items()},
         "data": observe(tr0, probes) if tr0 is not None else {},
         "clock": end_clock,
+        "last_seen": pc.ext_of_float(LAgent.last_seen[0]),
         "probes": [pc.ext_of_float(x) for x in probes],
     }
     if "markers" in first:
@@ -863,9 +866,29 @@ def child_launch(arg: dict) -> dict:
     return {"error": err, "final": final, "first": first, "states": states}
 
 
+_SEEDS: list[str] = []
+
+
+def hash_seeds() -> list[str]:
+    """Two PYTHONHASHSEED values under which a set of the dict buffers' keys iterates in different orders: the
+    saving and the loading process of a relaunch get one each (a saved state is read by another interpreter
+    process, whose string hashes are its own)."""
+    if not _SEEDS:
+        seen: dict[str, str] = {}
+        for sd in map(str, range(1, 40)):
+            out = subprocess.run([sys.executable, "-c", "print(list({'a','b'}))"], capture_output=True, text=True,
+                                 env={**os.environ, "PYTHONHASHSEED": sd}).stdout.strip()
+            seen.setdefault(out, sd)
+            if len(seen) == 2:
+                break
+        _SEEDS.extend(list(seen.values()) * 2)
+    return _SEEDS[:2]
+
+
 def run_child(mode: str, arg: dict, timeout: float = 60.0) -> dict:
     env = dict(os.environ)
     env["PYTHONDONTWRITEBYTECODE"] = "1"
+    env["PYTHONHASHSEED"] = hash_seeds()[1 if arg.get("saved") else 0]
     proc = subprocess.run([sys.executable, __file__, "--child", mode], input=json.dumps(arg),
                           capture_output=True, text=True, timeout=timeout, env=env)
     for line in reversed(proc.stdout.splitlines()):
@@ -916,6 +939,13 @@ def launch_case(case: dict) -> tuple[list[Violation], dict]:
         if c2 is not None and not (c1 - 0.5 <= c2 <= c1 + 30.0):
             vs.append(Violation("relaunch:clock", f"system clock: previous run ended at {c1}, the "
                                 f"relaunched system first reads {c2}", case))
+        # ... and not before an instant the components of run 1 have already seen (their samples and training
+        # markers carry such instants): the saved clock is the clock the run ended with, not an earlier one
+        seen = pc.float_of_ext(f1["last_seen"]) if f1.get("last_seen") is not None else None
+        if c2 is not None and seen is not None and seen != float("-inf") and c2 < seen - 1e-3:
+            vs.append(Violation("relaunch:clock-backwards",
+                                f"system clock: a step of the previous run read {seen}, the relaunched system "
+                                f"first reads {c2} ({seen - c2:.3f} s earlier)", case))
         return vs, {"run1": {k: f1[k] for k in ("leaves", "versions", "markers")},
                     "n_data": {n: d["len"] for n, d in f1["data"].items()},
                     "inconclusive": inconclusive}
@@ -947,6 +977,10 @@ def suite_launch(ctx: Ctx) -> SuiteResult:
     cases = [gen_launch_case(ctx.rng) for _ in range(ctx.n(4, 24))]
     for i, c in enumerate(cases):
         c["slow_train"] = i % 2 == 0
+        if i % 4 in (1, 3):
+            # a dictionary buffer (keys given as a set) in every second case: saved by one interpreter process,
+            # loaded by another with another hash seed
+            c["spec"]["users"][0][1] = "dseq" if i % 4 == 1 else "drrb"
     # max_uptime is in system time: keep the real duration of run 1 around 0.1-0.3 s
     with ThreadPoolExecutor(max_workers=8) as ex:
         for case, (vs, info) in zip(cases, ex.map(launch_case, cases)):
@@ -980,8 +1014,12 @@ def search(ctx: Ctx, disagreements, broken):
         vs, _, _ = run_case(gen_case(rng, big=(i % 3 == 0)), None)
         if vs:
             return vs
-    for _ in range(ctx.n(4, 16)):
-        vs, _ = launch_case(gen_launch_case(rng))
+    for i in range(ctx.n(4, 16)):
+        c = gen_launch_case(rng)
+        # accelerated runs first: whatever the final save gets wrong about the clock grows with the scale
+        c["scale"] = ["20", "200", "1", "20"][i % 4]
+        c["uptime"] = show_frac(F(c["scale"]) * F(3, 20))
+        vs, _ = launch_case(c)
         if vs:
             return vs
     return out
